@@ -353,6 +353,7 @@ func (e *FunctionCallExpr) Value(ctx *hcl.EvalContext) (cty.Value, hcl.Diagnosti
 	varParam := f.VarParam()
 
 	args := e.Args
+	var emptyExpandMarks cty.ValueMarks
 	if e.ExpandFinal {
 		if len(args) < 1 {
 			// should never happen if the parser is behaving
@@ -403,6 +404,12 @@ func (e *FunctionCallExpr) Value(ctx *hcl.EvalContext) (cty.Value, hcl.Diagnosti
 			// the collection itself, and apply any marks directly to the
 			// elements. This ensures that marks propagate correctly.
 			expandVal, marks := expandVal.Unmark()
+			if expandVal.LengthInt() == 0 {
+				// There are no elements to carry the marks, but the number
+				// of arguments still depends on the marked collection, so
+				// we'll apply its marks to the result instead.
+				emptyExpandMarks = marks
+			}
 			newArgs := make([]Expression, 0, (len(args)-1)+expandVal.LengthInt())
 			newArgs = append(newArgs, args[:len(args)-1]...)
 			it := expandVal.ElementIterator()
@@ -629,7 +636,7 @@ func (e *FunctionCallExpr) Value(ctx *hcl.EvalContext) (cty.Value, hcl.Diagnosti
 		return cty.DynamicVal, diags
 	}
 
-	return resultVal, diags
+	return resultVal.WithMarks(emptyExpandMarks), diags
 }
 
 func (e *FunctionCallExpr) Range() hcl.Range {
